@@ -29,6 +29,7 @@ import (
 type Op struct {
 	K    string   `json:"k"`
 	N    int      `json:"n,omitempty"`    // holder / id
+	T    int      `json:"t,omitempty"`    // mgr: thread (one concurrent call)
 	S    int      `json:"s,omitempty"`    // s-tag / literal session id
 	C    int      `json:"c,omitempty"`    // c-tag / mac number
 	L    [][3]int `json:"l,omitempty"`    // load list (nte, s, c)
@@ -1082,14 +1083,16 @@ func run(c Case) result {
 		return runCKey(c)
 	case "idx":
 		return runIdx(c)
+	case "mgr":
+		return runMgr(c)
 	}
 	panic("unknown component " + c.Comp)
 }
 
-var ctor = map[string]string{"vlan": "UV", "qinq": "UQ", "sess": "US", "ckey": "UC", "idx": "UI"}
+var ctor = map[string]string{"vlan": "UV", "qinq": "UQ", "sess": "US", "ckey": "UC", "idx": "UI", "mgr": "UG"}
 
 const header = `From Coq Require Import NArith List. Import ListNotations.
-From Verif Require Import Base.Word Model.Keys Model.Indexes Model.KeysSpec Model.KeysCheck.
+From Verif Require Import Base.Word Model.Keys Model.Indexes Model.KeysMgr Model.KeysSpec Model.KeysCheck.
 Local Open Scope N_scope.
 Definition cases : list ucase := [
 `
